@@ -89,6 +89,12 @@ func Refresh(data map[string]string) error {
 			base = &config.LoggerBase
 			ref = &config.AppenderRefs
 		default: // for linter
+			// The other logger kinds (Console, File, RollingFile, Discard, ...)
+			// write to their own appender and have no references to resolve.
+			if x, ok := config.(interface{ loggerBase() *LoggerBase }); ok {
+				return x.loggerBase(), nil
+			}
+			return nil, errutil.Explain(nil, "logger type %s must embed LoggerBase", v.Type().String())
 		}
 		for _, r := range ref.AppenderRefs {
 			appender, ok := cAppenders[r.Ref]
